@@ -24,6 +24,7 @@ THEOREMS = [
     dict(name="Snow.C05.consumers_in_range", clause="every step index of a consumer is a valid sample", strength="full"),
     dict(name="Snow.C05.profile_tracks_program", clause="agrees with the continuous piecewise-linear program to within one step per program segment (every sample equals the program at a time within 2*dt*(#holds+1))", strength="full"),
     dict(name="Snow.C05.segment_slip", clause="each ramp+hold pair shifts the sampling clock by more than -dt and less than 2*dt", strength="full"),
+    dict(name="Snow.C05.mkOpCond_wf", clause="the constructor maps every in-range user input to a well-formed program with the same holds", strength="full"),
     dict(name="Snow.C05.profileRaw_short_witness", clause="the unpadded profile (upstream) is one sample short for a ramp shorter than a step", strength="refutation-of-old-code"),
     dict(name="Snow.C05.nonvacuous", clause="hypotheses are satisfiable (concrete program)", strength="nonvacuity"),
 ]
